@@ -88,8 +88,12 @@ static bool umem_sim_alloc(struct umem_mgr *mgr, struct umem *umem, size_t size)
     return area_new(umem_sim_mgr_from_umem_mgr(mgr), umem, size);
 }
 
+void (*umem_sim_free_observer)(void);
+
 static void umem_sim_free(struct umem *umem)
 {
+    if (umem_sim_free_observer != NULL)
+        umem_sim_free_observer();
     struct area *a = area_find(umem->buffer);
     if (a == NULL) {
         sim_violation(SIM_V_CRASH, "umem_free of an area that is not live (double free?)");
@@ -143,6 +147,7 @@ struct umem_mgr *umem_sim_mgr_alloc(unsigned sub_offset)
     memset(areas, 0, sizeof(areas));
     nareas_live = 0;
     nallocs = 0;
+    umem_sim_free_observer = NULL;
     urefcount_init(&m->urefcount, umem_sim_mgr_free);
     m->sub_offset = sub_offset % 16;
     m->mgr.refcount = &m->urefcount;
